@@ -26,6 +26,10 @@ DevG(g) == (IF g.ind # 2 THEN 1 ELSE 0) + (IF g.envOmit THEN 1 ELSE 0) + (IF g.e
 (* rendering                                                                           *)
 TrailChunks(it) == IF it.trail = None THEN <<>> ELSE <<" ", "//", " ", CommentText(it.trail)>>
 
+(* blank line before an entry: 0 none | 1 an empty line | 2 a whitespace-only line (as editors leave them): as wide as the   *)
+(* entry's own indentation, two spaces at column 0                                                                        *)
+BlankLines(b, pad) == IF b = 0 THEN <<>> ELSE IF b = 1 THEN << <<>> >> ELSE << (IF pad = <<>> THEN Pad(2) ELSE pad) >>
+
 (* lines of an assignment-like entry (body assignment, META field) at indentation `pad` *)
 AssignLines(pad, key, v, sp, trail) ==
   LET spell == Spell(v)[sp.alt]
@@ -33,7 +37,7 @@ AssignLines(pad, key, v, sp, trail) ==
                    \o Pad(2 * sp.trsp) \o trail
       rest  == [j \in 1..(Len(spell) - 1) |->
                   IF spell[j + 1].k = "raw" THEN spell[j + 1].c ELSE pad \o spell[j + 1].c]
-  IN (IF sp.blank = 1 THEN << <<>> >> ELSE <<>>)
+  IN BlankLines(sp.blank, pad)
      \o (IF key = "" THEN rest ELSE <<head>> \o rest)
 
 TargetChunks(it) ==
@@ -46,14 +50,14 @@ TargetChunks(it) ==
 ItemLines(ind, it) ==
   LET pad == Pad(ind * it.d) IN
   CASE it.k = "assign"  -> AssignLines(pad, it.key, it.v, it.sp, TrailChunks(it))
-    [] it.k = "block"   -> (IF it.sp.blank = 1 THEN << <<>> >> ELSE <<>>)
+    [] it.k = "block"   -> BlankLines(it.sp.blank, pad)
                            \o << pad \o <<it.key>> \o TargetChunks(it) \o <<":">> \o Pad(2 * it.sp.trsp) >>
-    [] it.k = "section" -> (IF it.sp.blank = 1 THEN << <<>> >> ELSE <<>>)
+    [] it.k = "section" -> BlankLines(it.sp.blank, pad)
                            \o << pad \o <<(IF it.sp.op = 0 THEN "U00A7" ELSE "#"), it.sid, "::", it.key>>
                                   \o (IF it.ann = None THEN <<>> ELSE <<"[", AnnText(it.ann), "]">>)
                                   \o Pad(2 * it.sp.trsp) >>
     [] OTHER (* comment *) ->
-         (IF it.sp.blank = 1 THEN << <<>> >> ELSE <<>>)
+         BlankLines(it.sp.blank, pad)
          \o << (IF it.sp.cind = 1 THEN <<>> ELSE pad)
                \o (IF it.sp.op = 0 THEN <<"//", " ", CommentText(it.key)>> ELSE <<"//", CommentText(it.key)>>) >>
 
@@ -74,15 +78,19 @@ MetaLines(ind, meta, i) ==
         ELSE << Pad(ind) \o <<meta[i].key, ":">> >> \o NestedLines(ind, meta[i].nested, 1))
        \o MetaLines(ind, meta, i + 1)
 
+(* a comment written ABOVE the envelope line (cind = 2 on a comment that is the first body item): the same content as the   *)
+(* comment written under the envelope - readers attach it to the first node                                               *)
+Hoisted(doc) == doc.body # <<>> /\ doc.body[1].k = "comment" /\ doc.body[1].sp.cind = 2
 Render(doc) ==
   LET g == doc.g IN
      (IF doc.fm = None THEN <<>>
       ELSE << <<"---">> >> \o [j \in 1..Len(FmLines(doc.fm)) |-> <<FmLines(doc.fm)[j]>>] \o << <<"---">>, <<>> >>)
   \o (IF doc.sent = None THEN <<>> ELSE << <<"OCTAVE::", doc.sent>> >>)
+  \o (IF Hoisted(doc) THEN ItemLines(g.ind, doc.body[1]) ELSE <<>>)
   \o (IF g.envOmit THEN <<>> ELSE << <<"===", doc.env, "===">> >>)
   \o (IF doc.meta = <<>> THEN <<>> ELSE << <<"META", ":">> >> \o MetaLines(g.ind, doc.meta, 1))
   \o (IF doc.sep THEN << <<"---">> >> ELSE <<>>)
-  \o BodyLines(g.ind, doc.body, 1)
+  \o BodyLines(g.ind, doc.body, IF Hoisted(doc) THEN 2 ELSE 1)
   \o (IF g.endOmit THEN <<>> ELSE << <<"===END===">> >>)
 
 (* ---------------------------------------------------------------------------------- *)
